@@ -798,6 +798,16 @@ impl RLN {
         // [ proof<128> | root<32> | external_nullifier<32> | x<32> | y<32> | nullifier<32> ]
         let mut input_byte: Vec<u8> = Vec::new();
         input_data.read_to_end(&mut input_byte)?;
+        if input_byte.len() != 128 + 5 * fr_byte_size() {
+            return Err(Report::msg("input data has not the expected length"));
+        }
+        // Each public value has exactly one accepted encoding
+        if !input_byte[128..]
+            .chunks(fr_byte_size())
+            .all(is_canonical_fr_bytes_le)
+        {
+            return Ok(false);
+        }
         let proof = ArkProof::deserialize_compressed(&mut Cursor::new(&input_byte[..128]))?;
 
         let (proof_values, _) = deserialize_proof_values(&input_byte[128..]);
@@ -956,6 +966,16 @@ impl RLN {
     pub fn verify_rln_proof<R: Read>(&self, mut input_data: R) -> Result<bool> {
         let mut serialized: Vec<u8> = Vec::new();
         input_data.read_to_end(&mut serialized)?;
+        if serialized.len() < 128 + 5 * fr_byte_size() + 8 {
+            return Err(Report::msg("input data is too short"));
+        }
+        // Each public value has exactly one accepted encoding
+        if !serialized[128..128 + 5 * fr_byte_size()]
+            .chunks(fr_byte_size())
+            .all(is_canonical_fr_bytes_le)
+        {
+            return Ok(false);
+        }
         let mut all_read = 0;
         let proof =
             ArkProof::deserialize_compressed(&mut Cursor::new(&serialized[..128].to_vec()))?;
@@ -968,6 +988,11 @@ impl RLN {
         ))?;
         all_read += 8;
 
+        if serialized.len() - all_read != signal_len {
+            return Err(Report::msg(
+                "signal length does not match the remaining input data",
+            ));
+        }
         let signal: Vec<u8> = serialized[all_read..all_read + signal_len].to_vec();
 
         let verified = verify_proof(&self.verification_key, &proof, &proof_values)?;
@@ -1031,6 +1056,16 @@ impl RLN {
     pub fn verify_with_roots<R: Read>(&self, mut input_data: R, mut roots_data: R) -> Result<bool> {
         let mut serialized: Vec<u8> = Vec::new();
         input_data.read_to_end(&mut serialized)?;
+        if serialized.len() < 128 + 5 * fr_byte_size() + 8 {
+            return Err(Report::msg("input data is too short"));
+        }
+        // Each public value has exactly one accepted encoding
+        if !serialized[128..128 + 5 * fr_byte_size()]
+            .chunks(fr_byte_size())
+            .all(is_canonical_fr_bytes_le)
+        {
+            return Ok(false);
+        }
         let mut all_read = 0;
         let proof =
             ArkProof::deserialize_compressed(&mut Cursor::new(&serialized[..128].to_vec()))?;
@@ -1043,6 +1078,11 @@ impl RLN {
         ))?;
         all_read += 8;
 
+        if serialized.len() - all_read != signal_len {
+            return Err(Report::msg(
+                "signal length does not match the remaining input data",
+            ));
+        }
         let signal: Vec<u8> = serialized[all_read..all_read + signal_len].to_vec();
 
         let verified = verify_proof(&self.verification_key, &proof, &proof_values)?;
@@ -1278,12 +1318,18 @@ impl RLN {
         // We serialize_compressed the two proofs, and we get the corresponding RLNProofValues objects
         let mut serialized: Vec<u8> = Vec::new();
         input_proof_data_1.read_to_end(&mut serialized)?;
+        if serialized.len() < 128 + 5 * fr_byte_size() {
+            return Err(Report::msg("input proof data is too short"));
+        }
         // We skip deserialization of the zk-proof at the beginning
         let (proof_values_1, _) = deserialize_proof_values(&serialized[128..]);
         let external_nullifier_1 = proof_values_1.external_nullifier;
 
         let mut serialized: Vec<u8> = Vec::new();
         input_proof_data_2.read_to_end(&mut serialized)?;
+        if serialized.len() < 128 + 5 * fr_byte_size() {
+            return Err(Report::msg("input proof data is too short"));
+        }
         // We skip deserialization of the zk-proof at the beginning
         let (proof_values_2, _) = deserialize_proof_values(&serialized[128..]);
         let external_nullifier_2 = proof_values_2.external_nullifier;
